@@ -133,8 +133,9 @@ def check(ctx) -> Result:
     forms = {f"{lo}+({hi}-{lo})*{u}", f"{lo}+{u}*({hi}-{lo})", f"({hi}-{lo})*{u}+{lo}", f"{u}*({hi}-{lo})+{lo}", f"self._rng.uniform({lo},{hi})"}
     res.add(t in forms, "E-draw-within-bounds", "TopHat.value", tv.site(), tv.qualname, "lo + (hi - lo) * u with u in [0,1) lies in [lo, hi]", f"TopHat.value returns `{t}`, not the affine form lo + (hi-lo)*u", construct=t)
     for ci in (gm, tm):
-        ini = ci.methods["__init__"]
-        g = [n for n in walk_no_nested(ini.node) if isinstance(n, ast.If) and any(isinstance(b, ast.Raise) for b in n.body) and src(n.test).replace(" ", "") in ("max_value<min_value", "min_value>max_value")]
+        from ..inline import with_helpers as _whd
+        ini = _whd(ctx, ci.methods["__init__"], only_private=False, inline_locals=False)
+        g = [n for n in walk_no_nested(ini.node) if isinstance(n, ast.If) and any(isinstance(b, ast.Raise) for b in n.body) and src(n.test).replace(" ", "") in ("max_value<min_value", "min_value>max_value", "notmax_value>=min_value", "notmin_value<=max_value")]
         st = {src(a.targets[0]): src(a.value) for a in walk_no_nested(ini.node) if isinstance(a, ast.Assign)}
         res.add(bool(g) and st.get("self._min_value") == "min_value" and st.get("self._max_value") == "max_value", "E-draw-within-bounds", f"{ci.name}.__init__", ini.site(), ini.qualname, "max >= min enforced; bounds stored unchanged",
                 "constructor no longer enforces max >= min or stores different bounds", construct=str(st))
@@ -182,6 +183,15 @@ def check(ctx) -> Result:
     uname = rd.params()[0]
     returned = {x.id for r in walk_no_nested(rd.node) if isinstance(r, ast.Return) and r.value is not None for x in ast.walk(r.value) if isinstance(x, ast.Name)}
     recs = [n for n in cfgd.nodes if n.kind == "stmt" and isinstance(n.ast, ast.Assign) and isinstance(n.ast.targets[0], ast.Subscript) and isinstance(n.ast.targets[0].value, ast.Name) and n.ast.targets[0].value.id in returned and n.ast.targets[0].value.id != uname]
+    # `phase_map.update({key: theta, key2: phi})` records too: one pseudo-assignment per dictionary entry
+    class _Rec:
+        def __init__(self, node, key, value):
+            self.id, self.ast = node.id, ast.Assign(targets=[ast.Subscript(value=node.ast.value.func.value, slice=key, ctx=ast.Store())], value=value, lineno=node.ast.lineno)
+    for n in cfgd.nodes:
+        if n.kind == "stmt" and isinstance(n.ast, ast.Expr) and isinstance(n.ast.value, ast.Call) and isinstance(n.ast.value.func, ast.Attribute) and n.ast.value.func.attr == "update" and isinstance(n.ast.value.func.value, ast.Name) and n.ast.value.func.value.id in returned and n.ast.value.args and isinstance(n.ast.value.args[0], ast.Dict):
+            for k_, v_ in zip(n.ast.value.args[0].keys, n.ast.value.args[0].values):
+                if k_ is not None:
+                    recs.append(_Rec(n, k_, v_))
     trd = [n for n in cfgd.nodes if n.kind == "stmt" and isinstance(n.ast, ast.Assign) and isinstance(n.ast.targets[0], ast.Name) and isinstance(n.ast.value, ast.Call) and src(n.ast.value.func) == "bs_matrix"]
     tname = trd[0].ast.targets[0].id if trd else None
     upd = [n for n in cfgd.nodes if n.kind == "stmt" and isinstance(n.ast, ast.Assign) and src(n.ast.targets[0]) == uname and _matmul(n.ast.value) is not None and tname and any(isinstance(x, ast.Name) and x.id == tname for x in ast.walk(n.ast.value))]
